@@ -24,7 +24,12 @@ GOOGLE_FOOT = "Header line.\n\nArgs:\n  a (int): desc a\n\nFooterprose notes.\n"
 NUMPY_FOOT = "Header line.\n\nParameters\n----------\na : int\n    desc a\n\nFooterprose notes.\n"
 GOOGLE_STAR = "H.\n\nArgs:\n  *args: the args\n  **options: the opts\n"
 NUMPY_STAR = "H.\n\nParameters\n----------\n**options : dict\n    the opts\n"
-EXTRA_SKELETONS = {"google_star": GOOGLE_STAR, "numpy_star": NUMPY_STAR, "rest_noret": REST_NORET, "rest_default_noret": REST_DEFAULT_NORET, "google_foot": GOOGLE_FOOT, "numpy_foot": NUMPY_FOOT}
+# the footer STARTS with lines indented deeper than the parameter names (an indented example block), last parameter documented with a default and no closing period
+NUMPY_FOOT_EX = 'Header line.\n\nParameters\n----------\na : int\n    desc a\nb : str\n    desc b. Defaults to "x"\n\n    >>> Footerprose(1, "y")\n    True\n\nFooterprose notes.\n'
+GOOGLE_FOOT_EX = 'Header line.\n\nArgs:\n  a (int): desc a\n  b (str): desc b. Defaults to "x"\n\n    >>> Footerprose(1, "y")\n    True\n\nFooterprose notes.\n'
+REST_FOOT_EX = 'Header line.\n\n:param a: desc a\n:type a: ```int```\n\n:param b: desc b. Defaults to "x"\n:type b: ```str```\n\n    >>> Footerprose(1, "y")\n    True\n\nFooterprose notes.\n'
+EXTRA_SKELETONS = {"google_star": GOOGLE_STAR, "numpy_star": NUMPY_STAR, "rest_noret": REST_NORET, "rest_default_noret": REST_DEFAULT_NORET, "google_foot": GOOGLE_FOOT, "numpy_foot": NUMPY_FOOT,
+                   "numpy_foot_ex": NUMPY_FOOT_EX, "google_foot_ex": GOOGLE_FOOT_EX, "rest_foot_ex": REST_FOOT_EX}
 EDGE_SKELETONS = {  # section headers without bodies, blank line right under a NumPy underline, truncated tokens
     "numpy_empty_section": "Header.\n\nParameters\n----------\n",
     "numpy_blank_after_underline": "Header.\n\nParameters\n----------\n\na : int\n    desc a\n",
